@@ -353,5 +353,5 @@ def run(res, tier):
                 "relaxed; a case is non-trivial when it has >= 2 non-empty segments and parsing got past leading empty lines")
     std.run_standard(res, PID, tier, area="reqparse", build_impl=impl, gen_cases=gen_cases, oracle=oracle,
                      corr_name="ReqparseModel vs src/http/one/RequestParser.cc, Parser.cc, mime_header.cc, http/RequestMethod.cc",
-                     gens=["charsets", "reqparse"], n_quick=25000, n_thorough=400000, seed_salt=21, mutate=mutate,
+                     gens=["charsets", "reqparse"], n_quick=16000, n_thorough=400000, seed_salt=21, mutate=mutate,
                      kind_fn=kind_fn, nontrivial_fn=nontrivial)
